@@ -313,11 +313,9 @@ def traceAdd (tr : List TraceEntry) (ip target : Nat) (v : TraceVariant) : List 
     else
       tr ++ [{ instrIp := ip, target := target, variant := v, level := nextLevel last, count := 1 }]
 
-/-- `add_trace(i, target, variant)`; RIP already holds `next_ip`.  `RIP - len` is a checked
-    subtraction (panic site). -/
+/-- `add_trace(i, target, variant)`; RIP already holds `next_ip`; `RIP.wrapping_sub(len)`. -/
 def addTrace (s : Machine) (i : Instr) (target : BitVec 64) (v : TraceVariant) : Out Machine :=
-  if s.regs.rip.toNat < i.len then .panic else
-  .ok { s with trace := traceAdd s.trace (s.regs.rip.toNat - i.len) target.toNat v }
+  .ok { s with trace := traceAdd s.trace (s.regs.rip - BitVec.ofNat 64 i.len).toNat target.toNat v }
 
 def setRip (s : Machine) (v : BitVec 64) : Machine := { s with regs := { s.regs with rip := v } }
 
